@@ -1,7 +1,7 @@
 (* C09 — synaptic current flows from the listed pre- to the listed post-compartment.
    Models: Model/Index.v; traced synapse functions (Layer G).  Statements only. *)
 From Coq Require Import List ZArith Bool Arith Reals Permutation.
-From JV Require Import Index IndexFacts Prim GSynapses GCellUtils SynapseFacts CableConservation.
+From JV Require Import Index IndexFacts Prim GSynapses GCellUtils SynapseFacts CableConservation Secant SecantFacts.
 Import ListNotations.
 
 (* per-type arrays: the parameters/states of edge e sit at its rank within its type *)
@@ -52,3 +52,41 @@ Proof. exact stimulus_charge. Qed.
 
 Example C09_nonvacuous : contrib 1%nat [1; 0; 1]%nat [5; 7; 11]%Z = 16%Z.
 Proof. reflexivity. Qed.
+
+(* ---- the secant linearisation of Network._synapse_currents (Model/Secant.v, compared with the code) ----
+   for every network of built-in synapses, every voltage vector and every nonzero perturbation: the
+   linearised synaptic input of compartment c, evaluated at ANY new voltage of c, is the sum of the true
+   currents (converted with c's area factor) of exactly the synapses whose post compartment is c, each
+   reading the present voltage of its own pre compartment *)
+Theorem C09_linearised_synaptic_input_is_exact : forall (v : nat -> R) (d : R) (syns : list (syn R)) (c : nat),
+  d <> 0 -> Forall builtin syns ->
+  forall vnew,
+    fst (accumulate R Rplus Rminus Rmult Rdiv 0 v d syns c) * vnew - snd (accumulate R Rplus Rminus Rmult Rdiv 0 v d syns c)
+    = fold_right (fun s acc => (if Nat.eqb (s_post R s) c then dist_current R Rmult s (v (s_pre R s)) vnew else 0) + acc) 0 syns.
+Proof. exact builtin_network_exact. Qed.
+
+(* ... for any synapse whose current is affine in the post voltage *)
+Theorem C09_secant_exact_for_affine_currents : forall (s : syn R) (v : nat -> R) (d : R),
+  d <> 0 -> affine_in_post s ->
+  forall vnew, fst (terms R Rplus Rminus Rmult Rdiv v d s) * vnew + snd (terms R Rplus Rminus Rmult Rdiv v d s)
+               = dist_current R Rmult s (v (s_pre R s)) vnew.
+Proof. exact terms_exact. Qed.
+
+(* a compartment no synapse ends on receives nothing *)
+Theorem C09_other_compartments_receive_nothing : forall (v : nat -> R) (d : R) (syns : list (syn R)) (c : nat),
+  (forall s, In s syns -> s_post R s <> c) -> accumulate R Rplus Rminus Rmult Rdiv 0 v d syns c = (0, 0).
+Proof. exact accumulate_untouched. Qed.
+
+(* the TanhRateSynapse (reads only v_pre) puts no coefficient on the post voltage ... *)
+Theorem C09_tanhrate_no_post_coefficient : forall (v : nat -> R) (d : R) pre post g x sl conv, d <> 0 ->
+  fst (terms R Rplus Rminus Rmult Rdiv v d (mksyn R pre post (fun vpre vpost => TanhRateSynapse_current__i vpre vpost g x sl) conv)) = 0.
+Proof. exact tanhrate_no_post_coefficient. Qed.
+
+(* ... whereas the scheme the code used before the repair F46 (pre voltage perturbed too) is wrong for a
+   synapse that reads only the pre voltage *)
+Theorem C09_perturbing_the_pre_voltage_refuted :
+  exists (s : syn R) (v : nat -> R) (d vnew : R),
+    d <> 0 /\ (forall vpre v1 v2, s_cur R s vpre v1 = s_cur R s vpre v2) /\ s_pre R s <> s_post R s /\
+    fst (terms_both R Rplus Rminus Rmult Rdiv v d s) * vnew + snd (terms_both R Rplus Rminus Rmult Rdiv v d s)
+    <> dist_current R Rmult s (v (s_pre R s)) vnew.
+Proof. exact terms_both_refuted. Qed.
